@@ -446,6 +446,12 @@ func (env *Env) expr(e ast.Expr) TV {
 		case *types.Array:
 			return TV{sel(base.T, idx.T), u.Elem()}
 		}
+		if ref, u, ok := env.mapLike(base); ok {
+			// ordered map (modelled as an abstract map): m[k]
+			dom := sel(sel(vc.get(env.heap, vc.compMapDom(u)), ref), idx.T)
+			val := sel(sel(vc.get(env.heap, vc.compMapVal(u)), ref), idx.T)
+			return TV{ite(and("(not (= "+ref+" 0))", dom), val, vc.sorts.zero(u.Elem(), vc.lits)), u.Elem()}
+		}
 		sfail("index of %v", base.Ty)
 	case *ast.SliceExpr:
 		base := env.expr(x.X)
@@ -671,11 +677,11 @@ func (env *Env) call(x *ast.CallExpr) TV {
 			return TV{"(s-cap " + v.T + ")", tInt}
 		case "indom":
 			m, k := env.expr(x.Args[0]), env.expr(x.Args[1])
-			mt, ok := types.Unalias(m.Ty).Underlying().(*types.Map)
+			ref, mt, ok := env.mapLike(m)
 			if !ok {
 				sfail("indom on non-map")
 			}
-			return TV{and("(not (= "+m.T+" 0))", sel(sel(vc.get(env.heap, vc.compMapDom(mt)), m.T), k.T)), tBool}
+			return TV{and("(not (= "+ref+" 0))", sel(sel(vc.get(env.heap, vc.compMapDom(mt)), ref), k.T)), tBool}
 		case "fresh":
 			v := env.expr(x.Args[0])
 			switch types.Unalias(v.Ty).Underlying().(type) {
